@@ -600,6 +600,7 @@ def loadContainer (st : Store) : Except Err Img :=
     if h.magic != hdrMagic then .error .invalidMagic
     else if h.version != curVersion then .error .incompatibleVersion
     else if h.dtotal < 0 then .error .invalidDescriptorCount
+    else if h.doff < 0 then .error .loadDescriptors   -- a negative table offset is refused (fix D12)
     else match readDescriptors st.buf h.doff h.dsize h.dtotal.toNat 0 [] with
       | .error e => .error e
       | .ok rds => .ok { h := h, rds := rds, minIDs := populateMinIDs rds, st := st }
